@@ -211,7 +211,11 @@ int32_t ReturnStatement::accept(StatementVisitor* visitor) { return visitor->vis
 
 bool ReturnStatement::returns() { return true; }
 
-string ReturnStatement::str(const string& prefix) const { return prefix + "return " + value.str() + ";"; }
+string ReturnStatement::str(const string& prefix) const
+{
+    // "return;" of a void function has no value expression, and an empty expression cannot be printed
+    return value.empty() ? prefix + "return;" : prefix + "return " + value.str() + ";";
+}
 
 int32_t AbstractStatementVisitor::visitStatement(Statement* stat) { return 0; }
 
